@@ -4,6 +4,15 @@ import json, os
 HERE = os.path.dirname(os.path.abspath(__file__))
 
 BUILT = {
+ 'C02': dict(cat='exploration', tech='postcondition monitor interposed on truncate (all direct and nested calls) with dense-SVD reference; thresholds placed at every rank change',
+   text='Every execution of truncate in the workload (and inside add_many) is judged against the dense SVD of its own input: error bound, rank caps, quasi-optimality, minimal ranks; add_many recursion over exact partial sums. Held on the executions listed in the evidence.',
+   note='Trusted: LAPACK dense SVD; rounding floor 50(d-1)eps||absbound|| (+ sqrt(50(d-1)eps)||A|| in eigen mode); zero-norm inputs are judged by C11, not here.', ref='§4 C02'),
+ 'C03': dict(cat='exploration', tech='postcondition monitors interposed on svd / matrix_skeleton / matrix_svd (all calls) with dense-SVD reference; exhaustive unit-matrix probe of the svd_matrix interleaving',
+   text='Every execution of the TT-SVD and of the truncated matrix factorisations is judged against the dense SVD of its own input (error bound, exact ranks for exact-rank data, smallest admissible inner size, give_to conventions); svd_matrix entry map checked on all unit matrices up to 16x16.',
+   note='Trusted: LAPACK dense SVD; noise of computed singular values 1e3*eps*s1 (Gram variant: 1e3*eps*s1^2 on squares); zero matrices belong to C11.', ref='§4 C03'),
+ 'C04': dict(cat='exploration', tech='postcondition monitors interposed on orthogonalize / orthogonalize_left / orthogonalize_right (all calls, every pivot enumerated): Gram matrices, dense or probe-based tensor identity, byte snapshots for the in-place contract',
+   text='For every generated tensor every pivot and both stabilisation settings are executed and judged: orthonormal cores around the pivot, tensor preserved (times 2^p), pivot norm, rank cuts, no aliasing, moderate magnitudes, ValueError for out-of-range pivots, in-place contract of the single-step variants.',
+   note='Trusted: longdouble contraction / unbounded-exponent probes as reference; tolerance 50 d eps prod||G_k||_F.', ref='§4 C04'),
  'C01': dict(cat='exploration', tech='shadow-value runtime monitor: random expression programs evaluated by the real functions, every node and observer compared with a longdouble / exact-integer dense shadow',
    text='Oracle on executions of the real add/sub/mul/outer/copy and all evaluation routines over generated programs and TT families; held on the K programs listed in the evidence, never "verified".',
    note='Trusted: NumPy longdouble arithmetic as dense reference; tolerance 10(sum ranks+d)2^-52*absbound; exact Python ints for integer cores.', ref='§4 C01'),
